@@ -52,8 +52,8 @@ def mc_and_export(tier, rep):
 def gen_graph_traces(states, reqs, tier, rng, want_valid):
     """(state, request) edges of the TLC graph, replayed by state injection; plus covering walks."""
     traces = []
-    nstates = 250 if tier == "quick" else 3000
-    per = 120 if tier == "quick" else 400
+    nstates = 250 if tier == "quick" else 1500
+    per = 120 if tier == "quick" else 200
     pick = states if len(states) <= nstates else rng.sample(states, nstates)
     k = 0
     for s in pick:
